@@ -135,6 +135,15 @@ func runPubScenario(sc J) []stepResult {
 		box := "https://" + host + path
 		min := J{"entry": entry, "kind": kind, "method": method, "header": header, "box": box,
 			"fedOther": cbConfigOf(world.spec["fedCallbacks"])["other"], "socOther": cbConfigOf(world.spec["socialCallbacks"])["other"]}
+		if sc["wantGraph"] != nil {
+			// ground truth for the delivery oracle: what every remote document dereferences to, and the stored inboxes
+			docs := J{}
+			for u, doc := range jmap(world.spec["remote"]) {
+				docs[u] = okR(classifyDoc(docBytes(doc)))
+			}
+			min["remoteDocs"] = docs
+			min["inboxFor"] = world.spec["inboxFor"]
+		}
 		obs := J{}
 		func() {
 			defer func() {
